@@ -53,6 +53,10 @@ def run(c):
 
 
 def replay(c, case):
+    if "patterns" not in case.get("input", {}):
+        # tree-level cases (glob() builtins, ignore lists): re-run the deterministic check with the recorded seed
+        run(c)
+        return c.finish()
     exe = harness(c)
     p = subprocess.run([exe, "-replay", json.dumps(case["input"])], stdout=subprocess.PIPE)
     out = p.stdout.decode("utf-8", "replace")
